@@ -230,13 +230,12 @@ func c02FnRun(c *vt.Ctx, s c02FnScenario) { c02FnRunW(c, s) }
 func c02FnRunW(c c02Failer, s c02FnScenario) {
 	c02Hygiene()
 	enis, reqs, views, ever, nr := c02FnBuild(s)
-	tainted := map[string]bool{}
 	if nt, why := c02NonTrivialStart(enis, views, s.V4, s.V6); nt {
 		c.Label(why)
 		c.NonTrivial()
 	}
 	// the generated record itself must satisfy the invariants (generator check)
-	if msg, _ := c02CheckRecord(c02FnCopy(enis), enis, views, ever, tainted, s.V4 && s.V6, s.ERDMA); msg != "" {
+	if msg, _ := c02CheckRecord(c02FnCopy(enis), enis, views, ever, s.ERDMA); msg != "" {
 		panic("harness: generated record violates the invariants: " + msg)
 	}
 	rounds := 1
@@ -265,18 +264,9 @@ func c02FnRunW(c c02Failer, s c02FnScenario) {
 			c.Label("released-first")
 		}
 		assignIPFromLocalPool(logr.Discard(), reqs, ipv4Map, ipv6Map, s.ERDMA)
-		msg, facts := c02CheckRecord(prev, enis, views, ever, tainted, s.V4 && s.V6, s.ERDMA)
+		msg, facts := c02CheckRecord(prev, enis, views, ever, s.ERDMA)
 		for f := range facts {
-			switch {
-			case len(f) > 6 && f[:6] == "taint:":
-				tainted[f[6:]] = true
-			case len(f) > 6 && f[:6] == "class:":
-				if c08Known(f[6:]) {
-					c.Label("known:" + f[6:])
-				}
-			default:
-				c.Label("c02:" + f)
-			}
+			c.Label("c02:" + f)
 		}
 		if msg != "" {
 			c.Fatalf("C02 violated by assignIPFromLocalPool (round %d): %s\nbefore: %s\nafter:  %s", r+1, msg, c02RenderRecord(prev), c02RenderRecord(enis))
